@@ -166,7 +166,9 @@ def run(ctx):
     exc = [n for n in cfr.nodes if n.kind == "except" and "ConsumerFetchSizeTooSmall" in norm(n.stmt.type)]
     need(exc, "too-small handler missing")
     arm = [cfr.nodes[i] for i in cfr.reach([exc[0].id])]
-    facs = [n for n in arm if n.kind == "stmt" and isinstance(n.stmt, ast.Assign) and unparse(n.stmt.targets[0]) == "factor"]
+    mul = [n for n in arm if n.kind == "stmt" and isinstance(n.stmt, ast.AugAssign) and isinstance(n.stmt.op, ast.Mult) and node_writes_attr(n, "buffer_size")]
+    fvar = norm(mul[0].stmt.value) if mul else "factor"
+    facs = [n for n in arm if n.kind == "stmt" and isinstance(n.stmt, ast.Assign) and unparse(n.stmt.targets[0]) == fvar]
     vals = {}
     for n in facs:
         v = _const(prog, hfr, n.stmt.value)
@@ -178,9 +180,9 @@ def run(ctx):
         str(v) for v in vals), where(hfr, exc[0].stmt))
     grows = [n for n in arm if n.stmt is not None and node_writes_attr(n, "buffer_size")]
     unl = [n for n in grows if isinstance(n.stmt, ast.AugAssign) and isinstance(n.stmt.op, ast.Mult) and norm(
-        n.stmt.value) == "factor" and ("self.max_buffer_size is None", True) in ffr[n.id]]
+        n.stmt.value) == fvar and ("self.max_buffer_size is None", True) in ffr[n.id]]
     capd = [n for n in grows if isinstance(n.stmt, ast.Assign) and norm(n.stmt.value) in (
-        "min(self.buffer_size * factor, self.max_buffer_size)", "min(self.max_buffer_size, self.buffer_size * factor)")
+        "min(self.buffer_size * %s, self.max_buffer_size)" % fvar, "min(self.max_buffer_size, self.buffer_size * %s)" % fvar)
         and ("self.buffer_size < self.max_buffer_size", True) in ffr[n.id]]
     r.check(len(unl) == 1 and len(capd) == 1 and len(grows) == 2, "%s#growth" % hfr.qname,
             "buffer growth is not `size *= factor` without a cap, `min(size*factor, max)` below the cap", where(hfr, exc[0].stmt),
